@@ -592,6 +592,13 @@ fn drive<S: Settings>(sc: &Scenario, settings: &S, math: &CpuMath<RichDens>, sch
                         Ops::InspectEach => {
                             let ins = cs.inspect().map_err(|e| format!("inspect after row {k}: {e:#}"))?;
                             $inspect_check(c, k, ins, &mut *p);
+                            // the trace-level snapshot (what Sampler::inspect returns) must leave
+                            // the live trace usable: recording goes on afterwards
+                            let again = cs.inspect().map_err(|e| format!("inspect after row {k}: {e:#}"))?;
+                            let (err, _snapshot) = trace.inspect(vec![Ok(again)]).map_err(|e| format!("trace inspect after row {k}: {e:#}"))?;
+                            if let Some(e) = err {
+                                return Err(format!("trace inspect after row {k} reported: {e:#}"));
+                            }
                         }
                     }
                 }
